@@ -8,10 +8,10 @@ V="$(cd "$(dirname "$0")/.." && pwd)"
 export CARGO_TARGET_DIR="$WT/target" CARGO_NET_OFFLINE=true
 cd "$WT" || exit 2
 git checkout -q -- . ; git status --short | grep -v '^??' && { echo "worktree not clean"; exit 2; }
-sh "$OUT/demo.sh" "$WT" > /tmp/confirm-$ID-pristine.log 2>&1; P=$?
+bash "$OUT/demo.sh" "$WT" > /tmp/confirm-$ID-pristine.log 2>&1; P=$?
 git apply --whitespace=nowarn "$OUT/patch.diff"; A=$?
 T=$(cargo test --workspace --no-fail-fast --offline -j 8 2>&1 | grep -E "^test result" | tr '\n' ' ')
-sh "$OUT/demo.sh" "$WT" > /tmp/confirm-$ID-patched.log 2>&1; Q=$?
+bash "$OUT/demo.sh" "$WT" > /tmp/confirm-$ID-patched.log 2>&1; Q=$?
 git checkout -q -- .
 # untracked files the patch added
 git status --short | grep '^??' | grep -v -E ' (out|target)/' | awk '{print $2}' | xargs -r rm -rf
